@@ -17,20 +17,53 @@ func TestC12(t *testing.T) {
 	const id = "C12"
 	checkWitnesses(t, id)
 	checkRegressions(t, id)
-	ev.Rule(id, "rapid-generated multi-package programs (all annotation kinds mixed, no @ignore, every site tagged) and chains of 1-3 transformations from: permute top-level declarations of a file, move a declaration to another (possibly new) file of the package, insert blank lines / ordinary comments, go/format, consistently rename parameters / receivers / locals (closure parameters deliberately shadow the receiver's name in the base). oracle = metamorphic: {(site tag, code)} equal before and after, for TONL01/PKGO01 {(using package, type)}; baseline from the real tool. non-trivial = chain that reorders declarations of a file holding a function and a package-level declaration with a site, moves a declaration to another file, or renames a shadowing variable - and the base has >=1 diagnostic; distinct by hash of (base, transformed)")
+	ev.Rule(id, "rapid-generated multi-package programs (all annotation kinds mixed, every site tagged; 30% of the chains without a file move carry a file-level @ignore header whose attachment to the package clause is reshaped) and chains of 1-3 transformations from: permute top-level declarations of a file, move a declaration to another (possibly new) file of the package, insert blank lines / ordinary comments, go/format, consistently rename parameters / receivers / locals (closure parameters deliberately shadow the receiver's name in the base). oracle = metamorphic: {(site tag, code)} equal before and after, for TONL01/PKGO01 {(using package, type)}; baseline from the real tool. non-trivial = chain that reorders declarations of a file holding a function and a package-level declaration with a site, moves a declaration to another file, or renames a shadowing variable - and the base has >=1 diagnostic; distinct by hash of (base, transformed)")
 	cfg := engine.DefaultConfig()
 	rapid.Check(t, func(rt *rapid.T) {
 		p := proggen.Gen(rt, proggen.GenOpts{Focus: "all", MinPkgs: 1, MaxPkgs: 3, TestFiles: true, XTest: true, Aliases: true, Rich: true})
+		n := rapid.IntRange(1, 3).Draw(rt, "chainLen")
+		kinds := make([]int, n)
+		moves := false
+		for i := range kinds {
+			kinds[i] = rapid.IntRange(0, 4).Draw(rt, "transform")
+			moves = moves || kinds[i] == 1
+		}
+		// a file-level @ignore header (only when no declaration changes file: that
+		// would move it into or out of the header's scope)
+		var headFile *proggen.File
+		headShapes := func(c string) [][]string {
+			return [][]string{{c}, {c, ""}, {c, "", "// Package doc comment."}, {"// Copyright the authors.", c, ""}}
+		}
+		headComment := ""
+		if !moves && rapid.IntRange(0, 9).Draw(rt, "fileHeader") < 3 {
+			var fs []*proggen.File
+			for _, pk := range p.Pkgs {
+				fs = append(fs, pk.Files...)
+			}
+			headFile = fs[rapid.IntRange(0, len(fs)-1).Draw(rt, "headFile")]
+			headComment = "// @ignore " + rapid.SampledFrom([]string{"ALL", "IMM", "CTOR01, IMM01", "TONL, PKGO", "IMM01", "CTOR", "PKGO01, TONL01, IMPL"}).Draw(rt, "headCodes")
+			sh := headShapes(headComment)
+			headFile.Head = sh[rapid.IntRange(0, len(sh)-1).Draw(rt, "headShapeA")]
+			p.Render()
+		}
 		base := loadOrBug(rt, id, p, cfg)
 		srcA := p.Sources()
 		pkgsA := pkgDirs(p)
-		n := rapid.IntRange(1, 3).Draw(rt, "chainLen")
 		var labels []string
 		nt := false
 		doFmt := false
+		if headFile != nil {
+			sh := headShapes(headComment)
+			k := rapid.IntRange(0, len(sh)-1).Draw(rt, "headShapeB")
+			if strings.Join(sh[k], "\n") != strings.Join(headFile.Head, "\n") {
+				headFile.Head = sh[k]
+				labels = append(labels, "reshape-file-header")
+				ev.Class(id, "file-level @ignore header attached/detached/reshaped")
+			}
+		}
 		for i := 0; i < n; i++ {
 			var info proggen.TransformInfo
-			switch rapid.IntRange(0, 4).Draw(rt, "transform") {
+			switch kinds[i] {
 			case 0:
 				info = proggen.PermuteDecls(rt, p)
 			case 1:
